@@ -120,6 +120,18 @@ def build(case):
         dm = d1
     else:
         dm = np.array([0.55 * d1, 0.45 * d2])
+    if mul == "ONE":
+        # A multiplicative baseline that is not density weighted gives the vacuum (rho ~ 1e-9, weights ~ 100) an O(1)
+        # energy density for a synthetic model; there the 1e-16 regularisers of s^2 / alpha (which are not invariant
+        # under spin scaling) and the cancellation between the rho, sigma and tau terms are amplified by ~1e9 and
+        # finite differences leave their asymptotic regime.  The integration grid is an input: for these models the
+        # points with rho(D1) < 1e-6 carry zero weight (same fixed mask for every density matrix of the state).
+        from pyscf.dft import numint as _pn
+
+        rho1 = _pn.eval_rho(mol, _pn.eval_ao(mol, ks.grids.coords, deriv=0), d1, xctype="LDA")
+        w = np.array(ks.grids.weights, copy=True)
+        w[rho1 < 1e-6] = 0.0
+        ks.grids.weights = w
     return mol, ks, dm
 
 
